@@ -255,8 +255,11 @@ func genC20(t *rapid.T) interface{} {
 		c.Total = c.Current
 	case "ewma":
 		c.Target = rapid.SampledFrom([]string{"eta", "speed"}).Draw(t, "target")
-		c.AvgKind = rapid.SampledFrom([]string{"record", "record", "median"}).Draw(t, "avgkind")
+		c.AvgKind = rapid.SampledFrom([]string{"record", "record", "median", "hybrid"}).Draw(t, "avgkind")
 		c.ViaBar = rapid.Bool().Draw(t, "viabar")
+		if c.AvgKind == "hybrid" {
+			c.ViaBar = true // a user-defined estimator that is also an AverageDecorator and a ShutdownListener
+		}
 		nw := rapid.IntRange(0, 4).Draw(t, "nwrap")
 		for i := 0; i < nw; i++ {
 			c.Wrap = append(c.Wrap, rapid.SampledFrom([]string{"oncomplete", "onabort", "meta", "oncompletemeta", "onabortmeta", "ocoa", "ocmoam", "cond"}).Draw(t, "wrap"))
@@ -871,7 +874,59 @@ func median3(w [3]float64) float64 {
 	return t[1]
 }
 
+// c20Hybrid is a user-defined estimator: moving-average samples, start-time
+// adjustment and shutdown notification in one decorator.
+type c20Hybrid struct {
+	decor.WC
+	mu        sync.Mutex
+	samples   []c20Sample
+	adjusted  int
+	shutdowns int
+}
+
+func (d *c20Hybrid) Decor(decor.Statistics) (string, int) { return d.Format("h") }
+func (d *c20Hybrid) EwmaUpdate(n int64, dur time.Duration) {
+	d.mu.Lock()
+	d.samples = append(d.samples, c20Sample{n, int64(dur)})
+	d.mu.Unlock()
+}
+func (d *c20Hybrid) AverageAdjust(time.Time) { d.mu.Lock(); d.adjusted++; d.mu.Unlock() }
+func (d *c20Hybrid) OnShutdown()             { d.mu.Lock(); d.shutdowns++; d.mu.Unlock() }
+
+func runC20Hybrid(c *c20Case, wc decor.WC) (r Result) {
+	r.Classes = append(r.Classes, "kind:ewma", "avg:hybrid", "via-bar")
+	h := &c20Hybrid{WC: wc.Init()}
+	d := c20Wrap(h, c.Wrap)
+	if len(c.Wrap) > 0 {
+		r.Classes = append(r.Classes, fmt.Sprintf("wrap-depth:%d", len(c.Wrap)))
+	}
+	p := mpb.New(mpb.WithOutput(io.Discard))
+	b := p.AddBar(0, mpb.AppendDecorators(d))
+	for _, s := range c.Samples {
+		b.EwmaIncrInt64(s.N, time.Duration(s.Dur))
+	}
+	b.DecoratorAverageAdjust(time.Now())
+	_ = b.Current()
+	b.Abort(true)
+	p.Wait()
+	h.mu.Lock()
+	defer h.mu.Unlock()
+	if fmt.Sprint(h.samples) != fmt.Sprint(c.Samples) {
+		r.Err, r.Kind = fmt.Errorf("a decorator that is a moving-average estimator (and also adjustable and a shutdown listener) under wrappers %v received samples %v, the calls made were %v", c.Wrap, h.samples, c.Samples), "hybrid-samples"
+		return r
+	}
+	if h.adjusted != 1 || h.shutdowns != 1 {
+		r.Err, r.Kind = fmt.Errorf("hybrid decorator under wrappers %v: AverageAdjust reached it %d times (want 1), OnShutdown %d times (want 1)", c.Wrap, h.adjusted, h.shutdowns), "hybrid-interfaces"
+		return r
+	}
+	r.Nontrivial = len(c.Samples) > 0
+	return r
+}
+
 func runC20Ewma(c *c20Case, wc decor.WC, st decor.Statistics, call func(decor.Decorator, decor.Statistics) (string, error)) (r Result) {
+	if c.AvgKind == "hybrid" {
+		return runC20Hybrid(c, wc)
+	}
 	r.Classes = append(r.Classes, "kind:ewma", "ewma:"+c.Target, "avg:"+c.AvgKind)
 	fail := func(kind string, err error) Result {
 		r.Err, r.Kind = err, kind
